@@ -684,7 +684,7 @@ def write_evidence(ctx, level='proof', extra_assumptions=None, exhaustive=False,
                     % (ctx.prop, ' && lake env leanchecker GoSnaps.Props.' + ctx.prop if ctx.tier == 'thorough' else ''),
         trusted_base=[
             'Lean 4.33.0 kernel; axioms propext, Classical.choice, Quot.sound only (audited per theorem with #print axioms)',
-            'tools/extract (go/ast fact extractor, mode-gate translator, statement-by-statement transliteration of 95 functions, source text of 13 assumed primitives) regenerating lean/GoSnaps/Generated from /repo on every run, and lean/GoSnaps/GoSem.lean + GoIO.lean (the reading of Go it targets)',
+            'tools/extract (go/ast fact extractor, mode-gate translator, statement-by-statement transliteration of 95 functions and of internal/difflib, source text of 13 assumed primitives) regenerating lean/GoSnaps/Generated from /repo on every run, and lean/GoSnaps/GoSem.lean + GoIO.lean (the reading of Go it targets)',
             'correspondence harness (harness/snaps, injected with go test -overlay) and the Python orchestrator (vcheck/)',
             'the model primitives\' reading of Go semantics (bufio.ScanLines, strings.*, fmt verbs, filepath.*, os file operations as atomic)',
             'third-party libraries are modelled, not verified: gjson.Valid, tidwall/pretty, gjson path lookup and sjson replacement have executable Lean models (Json.lean, JsonPath.lean) compared with the libraries on generated documents; json.Marshal, kr/pretty, goccy/go-yaml, diffmatchpatch, regexp, go/parser, natural.Less are parameters with explicit contracts, exercised by the correspondence suites',
